@@ -37,6 +37,21 @@ RTOL_BRENTQ = Fraction(1, 2 ** 50)
 TNUCL = 64.0
 
 
+def known_or_note(ctx, key, what, rep):
+    """a failing input of a class recorded (or proposed) as a known finding: reported through
+    ctx.fail_input when the key is listed in known_findings.json, otherwise logged as a NOTE
+    and put into the evidence (findings_not_listed) until the entry is registered"""
+    listed = any(k.get("property") == "C01" and k.get("key") == key
+                 for k in ctx.known.get("findings", []))
+    if listed:
+        return ctx.fail_input(what, rep, key=key)
+    lst = ctx.cov.setdefault("findings_not_listed", [])
+    if not any(x["key"] == key for x in lst):
+        ctx.log("NOTE (finding not yet listed in known_findings.json, key %s):" % key, what)
+        lst.append(dict(key=key, what=what, replay=rep))
+    return None
+
+
 def fail(ctx, what, rep, key=None):
     """ctx.fail_input, at most 3 replay files per failure class"""
     seen = ctx.cov.setdefault("failing_inputs_per_key", {})
@@ -316,7 +331,7 @@ def run_deton(case):
             out["results"] = [dict(success=r.success, type=r.solutionType.name,
                                    velocity=r.wallVelocity, message=str(r.message))
                               for r in lst]
-        except ValueError as e:
+        except (ValueError, ArithmeticError, AssertionError) as e:
             out["raised"] = repr(e)
     out["log"] = log
     out["calls"] = calls
@@ -777,7 +792,20 @@ def direct_deton(ctx, case, out):
     log = out["log"]
     subs = []
     if out["raised"]:
-        fail(ctx, "findWallVelocityDetonation raised %s" % out["raised"], rep, key="raises")
+        # known class (narrow): ZeroDivisionError out of nextStepDeton because a scan point hit
+        # a pressure of exactly 0.0 (the step-size estimate divides by |pressure2|)
+        scan0 = [e for e in log if e["atol"] == 0.0]
+        zero = [e["v"] for e in scan0
+                if find_seg(segs, Fraction(e["v"])).p(Fraction(e["v"])) == 0]
+        if "ZeroDivisionError" in out["raised"] and zero:
+            known_or_note(ctx, "deton-zero-pressure-scan-point",
+                          "EOM.findWallVelocityDetonation lets ZeroDivisionError escape from "
+                          "helpers.nextStepDeton (pressure1 /= abs(pressure2)) when a scan point "
+                          "has a pressure of exactly 0.0 and the scan goes on (onlySmallest="
+                          "False, or the bracket at that point was not accepted); scan point "
+                          "%r" % zero[0], rep)
+        else:
+            fail(ctx, "findWallVelocityDetonation raised %s" % out["raised"], rep, key="raises")
         return subs
     for c in out["calls"]:
         vlo, vhi = Fraction(c["vlo"]), Fraction(c["vhi"])
@@ -906,6 +934,28 @@ def correspondence(ctx, proved):
                 ctx.log("  observed", json.dumps({k: obs[k] for k in obs if k != "rec"},
                                                  default=str)[:1500])
     return kept
+
+
+def zero_scan_witness(ctx):
+    """recorded input of the known class deton-zero-pressure-scan-point, replayed on every run"""
+    nf = 1
+    case = dict(nf=nf, errTol=1e-2, rel=0.1, mode="deton", vmin=Fraction(211, 512),
+                vmax=Fraction(951, 1024), vJ=Fraction(13, 32), fastest=Fraction(13, 32),
+                vLTE=Fraction(1, 2), segs=[Seg(0, Fraction(-108633, 8192), Fraction(49, 2), nf)],
+                scenario="deton-zero-scan", fault="none", maxiter=None, TLow=(10, 200),
+                THigh=(10, 200), wbounds=(Fraction(1, 128), 10), obounds=(-10, 10),
+                s0=(0.0, True, True), g0=([Fraction(1)], [Fraction(0)]), thick=None,
+                givenMin=None, givenMax=None, npmin=5, npmax=20, overshoot=0.05,
+                onlySmallest=False)
+    out = run_deton(case)
+    ctx.count("zero_scan_witness")
+    if out["raised"] and "ZeroDivisionError" in out["raised"]:
+        direct_deton(ctx, case, out)
+    else:
+        ctx.log("note: the recorded zero-pressure scan input no longer raises:", out["raised"],
+                out["results"])
+        direct_deton(ctx, case, out)
+    return out
 
 
 def degenerate_witness(ctx):
@@ -1465,6 +1515,7 @@ def run(ctx):
                     "scipy.optimize.root_scalar that records the evaluation trace"]
     # (3) correspondence + (4) direct validation on synthetic curves
     try:
+        zero_scan_witness(ctx)
         correspondence(ctx, props_built)
         degenerate_witness(ctx)
     except Exception as e:
@@ -1510,6 +1561,15 @@ def replay(rep):
         print("evaluations:", [(e["v"], e["atol"]) for e in obs["log"]])
         print("root finder:", {k: v for k, v in obs["rec"].items() if k != "calls"})
         print("root finder calls:", obs["rec"].get("calls"))
+        return 0
+    if rep.get("kind") == "synthetic-deton":
+        case = case_from_json(rep["case"])
+        out = run_deton(case)
+        print("raised:", out["raised"])
+        print("results:", out["results"])
+        print("scan:", [(e["v"], float(find_seg(case["segs"], Fraction(e["v"])).p(Fraction(e["v"]))))
+                        for e in out["log"] if e["atol"] == 0.0])
+        print("solveWall calls:", [(c["vlo"], c["vhi"], c["tlo"], c["thi"]) for c in out["calls"]])
         return 0
     if rep.get("kind") in ("e2e", "history"):
         class C:   # minimal stand-in for Ctx
